@@ -146,6 +146,29 @@ Qed.
 Lemma ulen_ascii a : is_ascii a = true -> ulen a = length a.
 Proof. intros H. unfold ulen. now rewrite udecode_ascii. Qed.
 
+(* str.encode("utf-8", "surrogateescape") (os.fsencode): a lone surrogate U+DC80..U+DCFF
+   becomes the byte it stands for, any other surrogate or a value outside the code space is
+   an error (None), everything else is encoded as UTF-8.  Round trip: C12/Codec.v. *)
+Definition uenc1 (cp : Z) : option bytes :=
+  if in_rng 0 127 cp then Some [cp]
+  else if in_rng 56448 56575 cp then Some [cp - 56320]
+  else if in_rng 55296 57343 cp then None
+  else if in_rng 128 2047 cp then Some [192 + cp / 64; 128 + cp mod 64]
+  else if in_rng 2048 65535 cp then Some [224 + cp / 4096; 128 + (cp / 64) mod 64; 128 + cp mod 64]
+  else if in_rng 65536 1114111 cp
+       then Some [240 + cp / 262144; 128 + (cp / 4096) mod 64; 128 + (cp / 64) mod 64; 128 + cp mod 64]
+  else None.
+
+Fixpoint uencode (l : list Z) : option bytes :=
+  match l with
+  | [] => Some []
+  | cp :: r =>
+    match uenc1 cp, uencode r with
+    | Some a, Some b => Some (a ++ b)
+    | _, _ => None
+    end
+  end.
+
 (* ------------------------------------------------------------ os.path.basename *)
 Definition basename (p : bytes) : bytes :=
   match rfind_byte 47 p with Some n => skipn (S n) p | None => p end.
